@@ -91,8 +91,34 @@ var ruleEsc = &Rule{
 			forms = append(forms, strconvQuoteForms...)
 			origin = "strconv.Quote"
 		}
+		type looseEsc struct {
+			s, at, fn string
+			c         *ssa.Call
+		}
+		var loose []looseEsc
 		for _, qf := range quoteFns {
 			origin += " " + fnName(qf)
+			// table-driven form: a package-level array of strings indexed with
+			// the character (`shortEscapes[r]`), filled by its declaration only
+			for _, b := range qf.Blocks {
+				for _, ins := range b.Instrs {
+					ia, ok := ins.(*ssa.IndexAddr)
+					if !ok {
+						continue
+					}
+					g, ok := ia.X.(*ssa.Global)
+					if !ok || g.Pkg == nil || fnPkgPath(qf) != g.Pkg.Pkg.Path() {
+						continue
+					}
+					for k, v := range stringArrayLiteral(p, g) {
+						if len(v) == 2 && v[0] == '\\' {
+							pairs[k] = v
+						} else if strings.HasPrefix(v, `\`) {
+							forms = append(forms, v)
+						}
+					}
+				}
+			}
 			for _, b := range qf.Blocks {
 				fs := factsAt(b)
 				for _, ins := range b.Instrs {
@@ -118,8 +144,11 @@ var ruleEsc = &Rule{
 								}
 							}
 							if !found {
-								out.undecided("escape "+s+" in "+fnName(qf), p.pos(c.Pos()), fnName(qf), "cannot tell for which rune this escape is printed")
+								loose = append(loose, looseEsc{s, p.pos(c.Pos()), fnName(qf), c})
 							}
+						} else if !strings.Contains(s, "%") {
+							// a bare prefix (`\u{`): the digits follow from elsewhere
+							loose = append(loose, looseEsc{s, p.pos(c.Pos()), fnName(qf), c})
 						} else {
 							forms = append(forms, s)
 						}
@@ -220,11 +249,52 @@ var ruleEsc = &Rule{
 			// letter, the result written with WriteRune
 			for _, b := range fn.Blocks {
 				for _, ins := range b.Instrs {
+					// two constant strings in corresponding order: the letter is
+					// looked up in one (`strings.IndexByte("bfnrtv", …)`), the
+					// character written is the other's at that position
+					if ix, ok := ins.(*ssa.Index); ok && reachesWriteRune(ix, map[ssa.Value]bool{}, 0) {
+						if vs, ok := ix.X.(*ssa.Const); ok && vs.Value != nil && vs.Value.Kind() == constant.String {
+							if ic, ok := stripConvPlain(ix.Index).(*ssa.Call); ok {
+								q := calleeQualified(&ic.Call)
+								if (q == "strings.IndexByte" || q == "strings.IndexRune") && len(ic.Call.Args) == 2 {
+									if ks, ok := ic.Call.Args[0].(*ssa.Const); ok && ks.Value != nil && ks.Value.Kind() == constant.String {
+										letters, values := constant.StringVal(ks.Value), constant.StringVal(vs.Value)
+										if len(letters) == len(values) {
+											for j := 0; j < len(letters); j++ {
+												if k := int64(letters[j]); k > 32 && k < 127 {
+													m[k] = int64(values[j])
+												}
+											}
+										}
+									}
+								}
+							}
+						}
+						continue
+					}
 					lk, ok := ins.(*ssa.Lookup)
 					if !ok {
 						continue
 					}
 					if !reachesWriteRune(lk, map[ssa.Value]bool{}, 0) {
+						continue
+					}
+					if vs, ok := lk.X.(*ssa.Const); ok && vs.Value != nil && vs.Value.Kind() == constant.String {
+						if ic, ok := stripConvPlain(lk.Index).(*ssa.Call); ok {
+							q := calleeQualified(&ic.Call)
+							if (q == "strings.IndexByte" || q == "strings.IndexRune") && len(ic.Call.Args) == 2 {
+								if ks, ok := ic.Call.Args[0].(*ssa.Const); ok && ks.Value != nil && ks.Value.Kind() == constant.String {
+									letters, values := constant.StringVal(ks.Value), constant.StringVal(vs.Value)
+									if len(letters) == len(values) {
+										for j := 0; j < len(letters); j++ {
+											if k := int64(letters[j]); k > 32 && k < 127 {
+												m[k] = int64(values[j])
+											}
+										}
+									}
+								}
+							}
+						}
 						continue
 					}
 					for k, v := range runeMapLiteral(p, lk.X) {
@@ -276,6 +346,23 @@ var ruleEsc = &Rule{
 			out.undecided("lexer escape switch", "-", "", "anchor unresolved: lexer method writing constant runes per escape letter")
 			return out
 		}
+		// a bare `\x` or `\u` prefix whose digits the printer writes itself
+		// (through a helper or digit by digit): the lexer must have a handler
+		// for the letter; the digit layout is not examined in this form
+		for _, le := range loose {
+			L := int64(le.s[1])
+			if special[L] == "" {
+				out.undecided("escape "+le.s+" in "+le.fn, le.at, le.fn, "cannot tell for which rune this escape is printed")
+				continue
+			}
+			key := "escape prefix " + le.s + " in " + le.fn
+			how, ok := p.hexDigitsAfter(le.c, le.s)
+			if ok {
+				out.ok(key, le.at, le.fn, "the lexer handles the letter with "+special[L]+"; "+how)
+			} else {
+				out.viol(key, le.at, le.fn, "the printer writes the digits of this escape itself and "+how+": the lexer reads exactly two digits after \\x, exactly four after \\u and up to six inside \\u{…}, so the text reads back as another character or not at all")
+			}
+		}
 		out.Counts["escape_letters_of_the_lexer"] = len(lexMap) + len(special)
 		out.Floors["escape_letters_of_the_lexer"] = 8
 		var ks []int64
@@ -308,7 +395,9 @@ var ruleEsc = &Rule{
 				switch f {
 				case `\x%02x`, `\u%04x`, `\u{%x}`:
 				default:
-					okShape = false
+					// a bare prefix (`\u{`): the printer writes the digits
+					// itself, their layout is not examined in this form
+					okShape = !strings.Contains(f, "%")
 				}
 				if okShape {
 					out.ok(key, p.pos(escFn.Pos()), fnName(escFn), "handled by "+special[L])
@@ -697,6 +786,177 @@ var theProg *Prog
 
 // runeArrayLiteral: the constant entries of a package-level array variable
 // initialised by a keyed composite literal and never stored to elsewhere.
+// stringArrayLiteral: the constant strings of a package-level array (or slice)
+// of strings written as a composite literal and never stored to outside the
+// package initialiser, by index.
+// hexDigitsAfter: where the digits that follow the escape prefix written (or
+// handed on) by call c come from. Complete digits from a base-16 formatter of
+// the standard library (strconv.AppendUint/FormatInt…, a %x verb) are fine for
+// every prefix when the writer pads to the fixed widths; digits written by
+// hand need a constant width that fits the prefix: 2 for \x, 4 for \u, at
+// least 6 for \u{.
+func (p *Prog) hexDigitsAfter(c *ssa.Call, prefix string) (string, bool) {
+	if c == nil || c.Block() == nil {
+		return "their source is not found", false
+	}
+	var writer *ssa.Call
+	if g := c.Call.StaticCallee(); g != nil && inModule(g) && !c.Call.IsInvoke() {
+		writer = c // the prefix is an argument of the digit writer itself
+	} else {
+		after := false
+		for _, ins := range c.Block().Instrs {
+			if ins == ssa.Instruction(c) {
+				after = true
+				continue
+			}
+			if !after {
+				continue
+			}
+			if n, ok := ins.(*ssa.Call); ok {
+				if g := n.Call.StaticCallee(); g != nil && !n.Call.IsInvoke() && (inModule(g) || strings.HasPrefix(calleeQualified(&n.Call), "strconv.") || strings.HasPrefix(calleeQualified(&n.Call), "fmt.")) {
+					writer = n
+					break
+				}
+			}
+		}
+	}
+	if writer == nil {
+		return "their source is not found", false
+	}
+	var complete func(g *ssa.Function, depth int) string
+	complete = func(g *ssa.Function, depth int) string {
+		if g == nil || g.Blocks == nil || depth > 2 {
+			return ""
+		}
+		for _, b := range g.Blocks {
+			for _, ins := range b.Instrs {
+				n, ok := ins.(*ssa.Call)
+				if !ok {
+					continue
+				}
+				switch q := calleeQualified(&n.Call); q {
+				case "strconv.AppendUint", "strconv.AppendInt", "strconv.FormatUint", "strconv.FormatInt":
+					if k, ok := constInt(n.Call.Args[len(n.Call.Args)-1]); ok && k == 16 {
+						return q
+					}
+				case "fmt.Fprintf", "fmt.Sprintf", "fmt.Appendf":
+					for i := range n.Call.Args {
+						if fs, ok := constStringArg(n, i); ok && strings.Contains(fs, "x") && strings.Contains(fs, "%") {
+							return q
+						}
+					}
+				}
+				if h := n.Call.StaticCallee(); h != nil && inModule(h) && !n.Call.IsInvoke() {
+					if r := complete(h, depth+1); r != "" {
+						return r
+					}
+				}
+			}
+		}
+		return ""
+	}
+	switch q := calleeQualified(&writer.Call); {
+	case strings.HasPrefix(q, "strconv.") || strings.HasPrefix(q, "fmt."):
+		return "digits from " + q, true
+	}
+	g := writer.Call.StaticCallee()
+	if via := complete(g, 0); via != "" {
+		return "all the digits, from " + via + " in " + fnName(g), true
+	}
+	// written by hand: the constant widths handed to the writer
+	var widths []int64
+	for _, a := range writer.Call.Args {
+		if _, isStr := a.(*ssa.Const); isStr {
+			if k, ok := constInt(a); ok {
+				widths = append(widths, k)
+			}
+		}
+	}
+	need := func(k int64) bool {
+		switch prefix {
+		case `\x`:
+			return k == 2
+		case `\u`:
+			return k == 4
+		}
+		return k >= 6
+	}
+	for _, k := range widths {
+		if need(k) {
+			return fmt.Sprintf("a fixed width of %d digits written by %s", k, fnName(g)), true
+		}
+	}
+	return fmt.Sprintf("%s writes them by hand with width %v", fnName(g), widths), false
+}
+
+func stringArrayLiteral(p *Prog, g *ssa.Global) map[int64]string {
+	out := map[int64]string{}
+	pk := p.Pkgs[g.Pkg.Pkg.Path()]
+	if pk == nil {
+		return out
+	}
+	for fn := range p.AllFns {
+		if !inModule(fn) || fn.Name() == "init" {
+			continue
+		}
+		for _, b := range fn.Blocks {
+			for _, ins := range b.Instrs {
+				if st, ok := ins.(*ssa.Store); ok {
+					a := st.Addr
+					for i := 0; i < 3; i++ {
+						if ia, ok := a.(*ssa.IndexAddr); ok {
+							a = ia.X
+						}
+					}
+					if a == ssa.Value(g) {
+						return out
+					}
+				}
+			}
+		}
+	}
+	for _, f := range pk.Syntax {
+		for _, d := range f.Decls {
+			gd, ok := d.(*ast.GenDecl)
+			if !ok || gd.Tok != token.VAR {
+				continue
+			}
+			for _, sp := range gd.Specs {
+				vs := sp.(*ast.ValueSpec)
+				for i, nm := range vs.Names {
+					if pk.TypesInfo.Defs[nm] != g.Object() || i >= len(vs.Values) {
+						continue
+					}
+					cl, ok := vs.Values[i].(*ast.CompositeLit)
+					if !ok {
+						return out
+					}
+					next := int64(0)
+					for _, e := range cl.Elts {
+						val := e
+						if kv, ok := e.(*ast.KeyValueExpr); ok {
+							tv, ok := pk.TypesInfo.Types[kv.Key]
+							if !ok || tv.Value == nil {
+								return map[int64]string{}
+							}
+							k, _ := constant.Int64Val(constant.ToInt(tv.Value))
+							next = k
+							val = kv.Value
+						}
+						tv, ok := pk.TypesInfo.Types[val]
+						if !ok || tv.Value == nil || tv.Value.Kind() != constant.String {
+							return map[int64]string{}
+						}
+						out[next] = constant.StringVal(tv.Value)
+						next++
+					}
+				}
+			}
+		}
+	}
+	return out
+}
+
 func runeArrayLiteral(p *Prog, g *ssa.Global) map[int64]int64 {
 	out := map[int64]int64{}
 	pk := p.Pkgs[g.Pkg.Pkg.Path()]
